@@ -42,9 +42,47 @@ def _poly_json(expr, names):
     syms = [sp.Symbol(g) for g in names]
     extra = expr.free_symbols - set(syms)
     if extra:
-        raise ValueError(f"basis element mentions non-goal symbols {sorted(map(str, extra))}")
+        return None
     P = sp.Poly(sp.expand(expr), *syms, domain="QQ")
     return [[f"{sp.Rational(c).p}/{sp.Rational(c).q}", [int(x) for x in mon]] for mon, c in P.terms()]
+
+
+class _LatticeOverride:
+    """replace, inside this worker process only, ExponentLattice as seen by InvariantIdeal by a stub
+    returning a supplied basis (used to attribute a false invariant to the exponent lattice)"""
+
+    def __init__(self, spec):
+        self.spec = spec
+
+    def __enter__(self):
+        import invariants.invariant_ideal as ii
+        self.ii = ii
+        self.orig = ii.ExponentLattice
+        if self.spec is None:
+            return self
+        spec = self.spec
+
+        class Stub:
+            def __init__(self, bases):
+                got = [str(b) for b in bases]
+                if got != list(spec["bases"]):
+                    raise RuntimeError(f"lattice override for {spec['bases']} but bases are {got}")
+
+            def compute_basis(self):
+                return [list(r) for r in spec["basis"]]
+
+        ii.ExponentLattice = Stub
+        return self
+
+    def __exit__(self, *a):
+        self.ii.ExponentLattice = self.orig
+        return False
+
+
+def _basis_out(basis, names):
+    polys = [_poly_json(b, names) for b in basis]
+    return {"basis": polys, "basis_str": sorted(str(b) for b in basis),
+            "nongoal_elements": [str(b) for b, p in zip(basis, polys) if p is None]}
 
 
 def task_invariant_ideal(task):
@@ -53,12 +91,14 @@ def task_invariant_ideal(task):
     from invariants.invariant_ideal import InvariantIdeal
     n, cfs = _closed_forms(task)
     t0 = time.time()
-    ideal = InvariantIdeal(cfs)
-    bases = [str(k) for k in ideal.base_to_symbol.keys()]
-    basis = ideal.compute_basis()
+    with _LatticeOverride(task.get("lattice_override")):
+        ideal = InvariantIdeal(cfs)
+        bases = [str(k) for k in ideal.base_to_symbol.keys()]
+        basis = list(ideal.compute_basis())
     names = [g for g, _ in task["closed_forms"]]
-    return {"basis": [_poly_json(b, names) for b in basis], "basis_str": sorted(str(b) for b in basis),
-            "exp_bases": bases, "seconds": round(time.time() - t0, 3)}
+    out = _basis_out(basis, names)
+    out.update({"exp_bases": bases, "seconds": round(time.time() - t0, 3)})
+    return out
 
 
 def task_program_invariants(task):
@@ -100,7 +140,7 @@ def task_program_invariants(task):
         sys.argv = ["polar.py", path, "--goals"] + list(task["goals"]) + ["--invariants"]
         args = ArgumentParser().parse_args()
         action = ActionFactory.create_action(args)
-        with contextlib.redirect_stdout(buf):
+        with contextlib.redirect_stdout(buf), _LatticeOverride(task.get("lattice_override")):
             action(path)
     finally:
         ga.InvariantIdeal = Orig
@@ -114,7 +154,8 @@ def task_program_invariants(task):
     if "closed_forms" not in rec:
         return {"error": "exception", "etype": "NoInvariantIdealCall", "msg": text[-500:]}
     names = [k for k, _ in rec["closed_forms"]]
-    return {"goal_ids": names, "closed_forms": [[k, str(v)] for k, v in rec["closed_forms"]],
-            "basis": [_poly_json(b, names) for b in rec["basis"]], "basis_str": sorted(str(b) for b in rec["basis"]),
-            "exp_bases": rec.get("exp_bases", []), "printed": sorted(printed), "class": type(action).__name__,
-            "seconds": round(time.time() - t0, 3)}
+    out = _basis_out(rec["basis"], names)
+    out.update({"goal_ids": names, "closed_forms": [[k, str(v)] for k, v in rec["closed_forms"]],
+                "exp_bases": rec.get("exp_bases", []), "printed": sorted(printed), "class": type(action).__name__,
+                "seconds": round(time.time() - t0, 3)})
+    return out
